@@ -703,14 +703,18 @@ Definition ex_W : list Q := [1; 2; 1#2; 1].
 Definition ex_curve : curve := mkcurve ex_kv (Some ex_P) (Some ex_W).
 
 Example ex_hyps :
-  WF (kvec ex_kv) (kdeg ex_kv) /\ kvalid1 ex_kv (1#3) = true /\ kvalid1 ex_kv 1 = true /  length ex_P = cnpts ex_curve /\ Forall (fun pt : list Q => length pt = 2%nat) ex_P /  pdim ex_P = 2%nat /\ length ex_W = cnpts ex_curve /\ Forall (fun w => 0 < w) ex_W /  valid_second (kdeg ex_kv) 1 = Ok 1%nat.
+  WF (kvec ex_kv) (kdeg ex_kv) /\ kvalid1 ex_kv (1#3) = true /\ kvalid1 ex_kv 1 = true /\
+  length ex_P = cnpts ex_curve /\ Forall (fun pt : list Q => length pt = 2%nat) ex_P /\
+  pdim ex_P = 2%nat /\ length ex_W = cnpts ex_curve /\ Forall (fun w => 0 < w) ex_W /\
+  valid_second (kdeg ex_kv) 1 = Ok 1%nat.
 Proof.
   repeat split; try reflexivity;
     repeat (constructor; try reflexivity).
 Qed.
 
 Example ex_rational_umax :
-  exists v, curve_eval1 ex_curve 1 = Ok v /            Forall2 Qeq v (rational_spec (kvec ex_kv) 2 2 ex_W ex_P 1).
+  exists v, curve_eval1 ex_curve 1 = Ok v /\
+  Forall2 Qeq v (rational_spec (kvec ex_kv) 2 2 ex_W ex_P 1).
 Proof.
   destruct ex_hyps as (W & _ & Hv & HPl & HPd & Hd & HWl & HWp & _).
   exact (C01_eval_rational ex_curve ex_P 2 eq_refl W HPl HPd Hd ex_W 1 eq_refl HWl HWp Hv).
